@@ -12,6 +12,20 @@ pub fn file_bytes() -> usize {
     mrecordlog::verif_hooks::FILE_NUM_BYTES
 }
 
+/// Multiplier for the large payload classes (VERIF_LEN_SCALE; used with the production file geometry, where a
+/// roll-over needs 128 MiB of entries).
+pub fn len_scale() -> u32 {
+    use std::sync::OnceLock;
+    static SCALE: OnceLock<u32> = OnceLock::new();
+    *SCALE.get_or_init(|| {
+        std::env::var("VERIF_LEN_SCALE")
+            .ok()
+            .and_then(|text| text.parse::<u32>().ok())
+            .unwrap_or(1)
+            .clamp(1, 4096)
+    })
+}
+
 /// Deterministic 64-bit hash (SipHash with fixed keys).
 pub fn hash64<T: Hash + ?Sized>(value: &T) -> u64 {
     let mut hasher = DefaultHasher::new();
